@@ -75,17 +75,18 @@ where
       *sbsc.write().unwrap() = Some(
         utils::ready_set_go(
           move || {
-            // block until emitted for replay
-            let items = &items.read().unwrap();
-            let was_error = &*was_error.read().unwrap();
-            let was_completed = &*was_completed.read().unwrap();
-            items.iter().for_each(|x| {
-              s.next(x.clone());
+            // copy the history out: no lock is held while the subscriber is called (it
+            // may call back into this subject)
+            let items = items.read().unwrap().clone();
+            let was_error = was_error.read().unwrap().clone();
+            let was_completed = *was_completed.read().unwrap();
+            items.into_iter().for_each(|x| {
+              s.next(x);
             });
-            if let Some(err) = &*was_error {
-              s.error(err.clone());
+            if let Some(err) = was_error {
+              s.error(err);
               return;
-            } else if *was_completed {
+            } else if was_completed {
               s.complete();
               return;
             }
